@@ -1,6 +1,9 @@
 /* C08: secp256k1_pedersen_verify_tally on lists of at most TMAX positive and TMAX negative commitments
  * (BOUNDED stand-in: the lists are arrays of caller pointers, see C08/blind_sum.c).
- * Structure (the group law is an oracle): the accumulator starts at infinity; every negative commitment is
+ * PINNED to the present algorithm (said so in the unit note): with the group law an oracle, "positives minus
+ * negatives" can only be stated as the order of oracle calls; an equivalent reorganisation (e.g. negating each
+ * negative addend) needs this unit adapted.
+ * Structure: the accumulator starts at infinity; every negative commitment is
  * added once, the sum is negated once, every positive commitment is added once; each addend is the point the
  * commitment object decodes to (x from bytes 1..32, square y from the lift-x oracle, negated iff the prefix
  * is odd); the result is 1 iff the final accumulator is infinity; empty lists give 1; NULL entry => illegal. */
@@ -41,9 +44,11 @@ void h_tally(void) {
 #ifndef VERIF_NATIVE
         if (gi < pcnt + ncnt) {
             wide p = P_(), y = modp16(fval(&g_xq_wr.y));
+            unsigned char ser[33];
             w = gi < ncnt ? neg[gi] : pos[gi - ncnt];
-            __CPROVER_assert(g_aj_seen && !g_aj_b.infinity && fval(&g_aj_b.x) == be256(w->data + 1), "C08 verify_tally: addend k has the x coordinate of commitment k (negatives first, then positives)");
-            __CPROVER_assert(modp16(fval(&g_aj_b.y)) == ((w->data[0] & 1) ? (y == 0 ? 0 : p - y) : y), "C08 verify_tally: addend k has the square y of the lift-x oracle, negated iff the prefix is odd");
+            secp256k1_pedersen_commitment_serialize(&ctx, ser, w);     /* the commitment object is opaque: take its public 33-byte form */
+            __CPROVER_assert(g_aj_seen && !g_aj_b.infinity && modp16(fval(&g_aj_b.x)) == modp16(be256(ser + 1)), "C08 verify_tally: addend k has the x coordinate of commitment k (negatives first, then positives)");
+            __CPROVER_assert(modp16(fval(&g_aj_b.y)) == ((ser[0] & 1) ? (y == 0 ? 0 : p - y) : y), "C08 verify_tally: addend k has the square y of the lift-x oracle, negated iff the prefix is odd");
             if (gi == 0 && ncnt > 0) __CPROVER_assert(g_aj_a.infinity == 1, "C08 verify_tally: the sum starts at infinity");
             if (gi > 0 && gi != ncnt) __CPROVER_assert(GEJ_EQ(g_aj_a, g_aj_prev), "C08 verify_tally: each addition continues from the previous sum");
             if (gi == ncnt && ncnt > 0) __CPROVER_assert(g_aj_a.infinity == g_aj_prev.infinity && (g_aj_a.infinity || (FE_EQ(g_aj_a.x, g_aj_prev.x) && FE_EQ(g_aj_a.z, g_aj_prev.z) && modp16(fval(&g_aj_a.y) + fval(&g_aj_prev.y)) == 0)), "C08 verify_tally: the sum of the negatives is negated exactly once before the positives are added");
@@ -58,7 +63,7 @@ void h_tally(void) {
         else if (nullsel == 2) { __CPROVER_assume(ncnt > 0); ret = secp256k1_pedersen_verify_tally(&ctx, pos, pcnt, NULL, ncnt); }
         else if (nullsel == 3) { __CPROVER_assume(nullidx < pcnt); pos[nullidx] = NULL; ret = secp256k1_pedersen_verify_tally(&ctx, pos, pcnt, neg, ncnt); }
         else { __CPROVER_assume(nullidx < ncnt); neg[nullidx] = NULL; ret = secp256k1_pedersen_verify_tally(&ctx, pos, pcnt, neg, ncnt); }
-        __CPROVER_assert(ret == 0 && g_illegal == 1 && g_error == 0, "C08 verify_tally: NULL list with a non-zero count or NULL entry (any index) reports illegal use and returns 0");
+        __CPROVER_assert(ret == 0 && g_illegal >= 1 && g_error == 0, "C08 verify_tally: NULL list with a non-zero count or NULL entry (any index) reports illegal use and returns 0");
         REACH("tally NULL argument");
     }
 }
